@@ -423,6 +423,9 @@ class _Sub(object):
     def undecided(self, rule, *a, **k):
         return self._ctx.undecided(self._rule, *a, **k)
 
+    def require(self, rule, *a, **k):
+        return self._ctx.require(self._rule, *a, **k)
+
 
 def r_idioms(ctx):
     from .common import repo_idioms
